@@ -110,24 +110,49 @@ theorem fromLocal_eq_nil_lt (z : Zone) (n : Int) (h : fromLocal z n = []) : n < 
     simp only [List.append_eq_nil_iff] at h
     exact fromLocalFrom_eq_nil_lt t' o' rest n h.2
 
-/-- the minute loop of `Localize::datetime` for `TzLocation`: the first local time among
-`n, n + 1 min, …` that exists, with its `latest()` instant.
+theorem getLast?_none_nil {z : Zone} {n : Int} (h : latest? z n = none) : fromLocal z n = [] :=
+  List.getLast?_eq_none_iff.mp h
+
+theorem head?_none_nil {z : Zone} {n : Int} (h : earliest? z n = none) : fromLocal z n = [] :=
+  List.head?_eq_none_iff.mp h
+
+/-- what one round of the loop of `Localize::datetime` reads off chrono's `LocalResult`:
 ```
-loop { if let Some(dt) = tz.from_local_datetime(&naive).latest() { …walk back…; return dt; }
+let local = self.tz.from_local_datetime(&naive);
+let found = if naive == requested { local.latest() } else { local.earliest() };
+```
+the later instant when the requested time itself exists (and is ambiguous), the first instant of a
+time reached by stepping forward over a gap (/repo e1e5204) -/
+def found? (z : Zone) (requested naive : Int) : Option Int :=
+  if naive = requested then latest? z naive else earliest? z naive
+
+theorem found?_none_nil {z : Zone} {requested n : Int} (h : found? z requested n = none) :
+    fromLocal z n = [] := by
+  unfold found? at h
+  split at h
+  · exact getLast?_none_nil h
+  · exact head?_none_nil h
+
+/-- the minute loop of `Localize::datetime` for `TzLocation`: the first local time among
+`n, n + 1 min, …` that exists, with the instant `found?` picks for it.
+```
+let requested = naive;
+loop { let local = …; let found = …;
+       if let Some(mut dt) = found { …walk back…; return dt; }
        naive = naive.checked_add_signed(TimeDelta::minutes(1)).expect("no valid datetime for time zone"); }
 ```
 The loop terminates because every local time from `lastLocal z` on exists (measure
 `lastLocal z - n`); the `expect` is a panic site (`NaiveDateTime::MAX`), proved unreachable for
 `n ≤ DATE_END` in `OH.Props.C09.datetime_no_panic`. -/
-def minuteLoop (z : Zone) (n : Int) : M (Int × Int) :=
-  match h : (fromLocal z n).getLast? with
+def minuteLoop (z : Zone) (requested n : Int) : M (Int × Int) :=
+  match h : found? z requested n with
   | some u => .ok (n, u)
   | none =>
     if n + nsPerMin > instMax then .error "localize.rs:datetime no valid datetime for time zone"
-    else minuteLoop z (n + nsPerMin)
+    else minuteLoop z requested (n + nsPerMin)
 termination_by (lastLocal z - n).toNat
 decreasing_by
-  have h1 : fromLocal z n = [] := List.getLast?_eq_none_iff.mp h
+  have h1 : fromLocal z n = [] := found?_none_nil h
   have h2 := fromLocal_eq_nil_lt z n h1
   simp only [nsPerMin]
   omega
@@ -137,17 +162,17 @@ not end on a whole minute):
 ```
 while naive > requested {
     naive -= TimeDelta::seconds(1);          // panics below NaiveDateTime::MIN
-    match self.tz.from_local_datetime(&naive).latest() { Some(prev) => dt = prev, None => break }
+    match self.tz.from_local_datetime(&naive).earliest() { Some(prev) => dt = prev, None => break }
 }
 return dt;
 ```
 The subtraction cannot underflow for a representable `requested` (`naive − requested` is a whole
-number of seconds): `OH.Proofs.Tz.walkBack_ok`. -/
+number of seconds): `OH.Proofs.Tz.walkBack_spec`. -/
 def walkBack (z : Zone) (requested naive dt : Int) : M Int :=
   if naive > requested then
     if naive - nsPerSec < instMin then .error "chrono:NaiveDateTime - TimeDelta overflowed"
     else
-      match (fromLocal z (naive - nsPerSec)).getLast? with
+      match earliest? z (naive - nsPerSec) with
       | some prev => walkBack z requested (naive - nsPerSec) prev
       | none => .ok dt
   else .ok dt
@@ -156,9 +181,11 @@ decreasing_by
   simp only [nsPerSec]
   omega
 
-/-- `Localize::datetime` for `TzLocation` (`let requested = naive; loop { … }`) -/
+/-- `Localize::datetime` for `TzLocation` (`let requested = naive; loop { … }`): `latest()` of the
+requested time when it exists; otherwise `earliest()` of the first existing time among
+`requested + k min`, walked back second by second with `earliest()` while the time still exists -/
 def datetime (z : Zone) (n : Int) : M Int :=
-  match minuteLoop z n with
+  match minuteLoop z n n with
   | .error p => .error p
   | .ok (m, u) => walkBack z n m u
 
